@@ -383,3 +383,60 @@ Proof.
   - intros k Hk. apply Hfair. apply in_seq in Hk. lia.
   - rewrite E. auto.
 Qed.
+
+(* ---------------- C08: when do two sketches collide on a bin (before densification)? ---------------- *)
+(* exactly when an item common to both sets attains the per-bin minimum of the union *)
+Theorem dens_collision_iff m large A B sA sB k :
+  items_ok m A -> items_ok m B ->
+  (forall r k' hv, In (r, k', hv) (A ++ B) -> r < large) ->
+  dens_items true (dens_new m large) A = Ok sA -> dens_items true (dens_new m large) B = Ok sB -> (k < m)%nat ->
+  let E0 := enc large (2 ^ 64 - 1) in
+  (nthb (d_init sA) k = true /\ nthb (d_init sB) k = true /\
+   nthz (d_h sA) k = nthz (d_h sB) k /\ nthz (d_v sA) k = nthz (d_v sB) k)
+  <->
+  (exists r hv, In (r, k, hv) A /\ In (r, k, hv) B /\ enc r hv = min_at (dtag (A ++ B)) E0 k).
+Proof.
+  intros OkA OkB Hr RA RB Hk E0.
+  destruct (dens_items_spec A (dens_new m large) (dens_new_wf m large) OkA) as [sA' [EA [WfA [MA SA]]]].
+  destruct (dens_items_spec B (dens_new m large) (dens_new_wf m large) OkB) as [sB' [EB [WfB [MB SB]]]].
+  rewrite RA in EA. injection EA as <-. rewrite RB in EB. injection EB as <-.
+  cbn [dens_new d_m d_h d_v d_init] in SA, SB, MA, MB.
+  destruct (SA k Hk) as [a1 a2]. destruct (SB k Hk) as [b1 b2].
+  assert (Hi0 : nthb (repeat false m) k = false) by (unfold nthb; apply nth_repeat_lt; exact Hk).
+  assert (He0 : enc (nthz (repeat large m) k) (nthz (repeat (2 ^ 64 - 1) m) k) = E0).
+  { unfold nthz. rewrite !nth_repeat_lt by exact Hk. reflexivity. }
+  rewrite Hi0 in a2, b2. cbn [orb] in a2, b2. rewrite He0 in *.
+  set (a := min_at (dtag A) E0 k) in *. set (b := min_at (dtag B) E0 k) in *.
+  assert (Hunion : min_at (dtag (A ++ B)) E0 k = Z.min a b).
+  { unfold dtag. rewrite map_app. apply min_at_app. }
+  assert (HvA : 0 <= nthz (d_v sA) k < W64) by (destruct WfA as [_ [_ [_ [_ H]]]]; apply H; lia).
+  assert (HvB : 0 <= nthz (d_v sB) k < W64) by (destruct WfB as [_ [_ [_ [_ H]]]]; apply H; lia).
+  assert (Hlt : forall r k' hv, In (r, k', hv) (A ++ B) -> 0 <= hv < W64 -> enc r hv < E0).
+  { intros r k' hv Hin Hhv. specialize (Hr r k' hv Hin). unfold E0, enc, W64 in *. nia. }
+  (* a point of dtag L at bin k with key e comes from an item (r, k, hv) of L with enc r hv = e *)
+  assert (Hpt : forall L id e, In (id, e, k) (dtag L) -> exists r, In (r, k, id) L /\ enc r id = e).
+  { intros L id e Hin. unfold dtag in Hin. apply in_map_iff in Hin. destruct Hin as [[[r k'] hv] [E Hin]].
+    injection E as <- <- <-. exists r. auto. }
+  rewrite Hunion. split.
+  - intros [IA [IB [Hh Hv]]].
+    rewrite IA in a2. rewrite IB in b2. symmetry in a2, b2. apply Z.ltb_lt in a2, b2.
+    assert (Eab : a = b) by (rewrite <- a1, <- b1, Hh, Hv; reflexivity).
+    destruct (min_at_attained (dtag A) E0 k) as [E|[id Hin]]; [fold a in E; lia|]. fold a in Hin.
+    destruct (min_at_attained (dtag B) E0 k) as [E|[id' Hin']]; [fold b in E; lia|]. fold b in Hin'.
+    destruct (Hpt A id a Hin) as [r [HinA Er]]. destruct (Hpt B id' b Hin') as [r' [HinB Er']].
+    destruct (OkA r k id HinA) as [_ Hid]. destruct (OkB r' k id' HinB) as [_ Hid'].
+    assert (Heq : enc r id = enc r' id') by congruence.
+    destruct (enc_inj _ _ _ _ Hid Hid' Heq) as [-> ->].
+    exists r', id'. split; [exact HinA|]. split; [exact HinB|]. rewrite Er. lia.
+  - intros [r [hv [HinA [HinB Hmin]]]].
+    assert (Ha := min_at_le (dtag A) E0 k hv (enc r hv) ltac:(unfold dtag; apply in_map_iff; exists (r, k, hv); auto)). fold a in Ha.
+    assert (Hb := min_at_le (dtag B) E0 k hv (enc r hv) ltac:(unfold dtag; apply in_map_iff; exists (r, k, hv); auto)). fold b in Hb.
+    destruct (OkA r k hv HinA) as [_ Hhv].
+    assert (Hl := Hlt r k hv ltac:(apply in_app_iff; auto) Hhv).
+    assert (Ea : a = enc r hv) by lia. assert (Eb : b = enc r hv) by lia.
+    assert (IA : nthb (d_init sA) k = true) by (rewrite a2; apply Z.ltb_lt; lia).
+    assert (IB : nthb (d_init sB) k = true) by (rewrite b2; apply Z.ltb_lt; lia).
+    split; [exact IA|]. split; [exact IB|].
+    assert (Heq : enc (nthz (d_h sA) k) (nthz (d_v sA) k) = enc (nthz (d_h sB) k) (nthz (d_v sB) k)) by congruence.
+    destruct (enc_inj _ _ _ _ HvA HvB Heq) as [H1 H2]. auto.
+Qed.
